@@ -27,9 +27,9 @@ CHECKS = {
         '(known finding F, negation proved). "Every executed address in a c block" and the sna2skool leg are correspondence + e2e only.',
    note=TB + 'hand model Model/SnaCtl tied by correspondence (5.5k ops/run) with decode tables taken from the real opcodes.decode/Disassembler; three heuristic-limit known findings', ref='§8 C14'),
  'C11': dict(cat='proof', technique='Lean 4 theorems (induction over block lists / pulse lists) + model/implementation correspondence + e2e with independent tape writers/decoders',
-   text='31 theorems on hand models of tape.get_edges (both data paths), TAP/PZX/TZX parsers and writers: edges sorted, exact pulse sequences, decode-back to the block bits, '
+   text='30 theorems on hand models of tape.get_edges (both data paths), TAP/PZX/TZX parsers and writers: edges sorted, exact pulse sequences, decode-back to the block bits, '
         'data-block index ranges, polarity/first-edge laws, TAP/PZX/TZX forms give identical edges, TAP and PZX round trips, PULS/DATA codecs — for all block lists and timings. '
-        'One genuine defect (truncation mid-bit for PZX DATA with p0!=p1 and used bits<8) is proved as a negation and listed as known; exact-pulse/decode theorems exclude that class (_partial).',
+        'One genuine defect found here (truncation mid-bit for PZX DATA with p0!=p1 and used bits<8) was repaired by a fix: commit; the exact-pulse/decode theorems are now full strength.',
    note=TB + 'hand models Model/Edges, TapeFiles, TzxFile tied by correspondence (13k cases/run); tapinfo text and TZX loop expansion e2e only', ref='§8 C11'),
  'C04': dict(cat='proof', technique='Lean 4 theorems (decide over mode/directive tables; induction over line lists) + model/implementation correspondence + e2e with an independent two-pass assembler',
    text='17 theorems: the substitution/fix-mode weight tables of skoolparser and skool2bin select the same directives in all 7 modes (tables dumped from the real modules each run); '
